@@ -142,7 +142,10 @@ def capProp (a b : Cap) (dc : F64) (ps : List V3) (res : List String) : Option S
       ("cap-union-invalid", unit u),
       ("cap-addPoint-invalid", aps.all fun (p, ap) => !Chord.isUnit p || unit ap),
       ("cap-interiorIntersects-true-but-intersects-false", !ix || x),
-      ("cap-contains-true-but-intersects-false", !ci || b.isEmpty || x)]
+      ("cap-contains-true-but-intersects-false", !ci || b.isEmpty || x),
+      -- an empty cap has no point: it intersects nothing (membership semantics; seeded change C19_5)
+      ("cap-intersects-true-but-an-operand-is-empty", !(x && (a.isEmpty || b.isEmpty))),
+      ("cap-interiorIntersects-true-but-an-operand-is-empty", !(ix && (a.isEmpty || b.isEmpty)))]
     pure (firstFail (basic ++ clausesFloat a b dcNonneg ps ci x cpl ac e aps ++ clausesUnion a b u ps))).getD
       (some "unparseable")
 
